@@ -126,25 +126,26 @@ def eval_cases(ck, name, cases):
            "Import ListNotations.\nOpen Scope lb_scope.\n"
            "Definition raw : list lbytes := [\n  " + ";\n  ".join(case_to_line(c) for c in cases) + "].\n"
            "Definition res := Eval vm_compute in (let cases := decode_cases raw in\n"
-           "  (Z.of_nat (undecodable raw) :: nil, mismatches cases, spec_violations cases, unreadable cases, float_disagreements cases)).\n"
-           "Definition U := Eval vm_compute in fst (fst (fst (fst res))).\nPrint U.\n"
-           "Definition M := Eval vm_compute in snd (fst (fst (fst res))).\nPrint M.\n"
-           "Definition V := Eval vm_compute in snd (fst (fst res)).\nPrint V.\n"
-           "Definition R := Eval vm_compute in snd (fst res).\nPrint R.\n"
-           "Definition F := Eval vm_compute in snd res.\nPrint F.\n")
+           "  (Z.of_nat (undecodable raw) :: nil, mismatches cases, spec_violations cases, unreadable cases, float_disagreements cases, number_losses cases)).\n"
+           "Definition U := Eval vm_compute in fst (fst (fst (fst (fst res)))).\nPrint U.\n"
+           "Definition M := Eval vm_compute in snd (fst (fst (fst (fst res)))).\nPrint M.\n"
+           "Definition V := Eval vm_compute in snd (fst (fst (fst res))).\nPrint V.\n"
+           "Definition R := Eval vm_compute in snd (fst (fst res)).\nPrint R.\n"
+           "Definition F := Eval vm_compute in snd (fst res).\nPrint F.\n"
+           "Definition L := Eval vm_compute in snd res.\nPrint L.\n")
     rc, out = ck.coq_eval(name, txt)
     if rc != 0:
-        return None, None, None, None, out
+        return None, None, None, None, None, out
     flat = " ".join(out.split())
     res = []
-    for nm in ("U", "M", "V", "R", "F"):
+    for nm in ("U", "M", "V", "R", "F", "L"):
         m = re.search(nm + r" = \[(.*?)\]\s*: list Z", flat)
         if not m:
-            return None, None, None, None, out
+            return None, None, None, None, None, out
         res.append([int(x) for x in re.findall(r"-?\d+", m.group(1))])
     if res[0] != [0]:
-        return None, None, None, None, "%d case(s) could not be decoded by decode_case\n" % res[0][0] + out
-    return res[1], res[2], res[3], res[4], out
+        return None, None, None, None, None, "%d case(s) could not be decoded by decode_case\n" % res[0][0] + out
+    return res[1], res[2], res[3], res[4], res[5], out
 
 
 def case_size(c):
@@ -216,13 +217,13 @@ def run_encoders(ck):
                   "%d of %d: %s" % (len(skipped), len(cases), [c["skip"] for c in skipped[:3]]))
     ok_cases = [c for c in cases if not c.get("panic") and not c.get("skip")]
 
-    mism, viol, unread, fdis = [], [], [], []
+    mism, viol, unread, fdis, nloss = [], [], [], [], []
     shard = 200
     # the shards are independent coqc runs: evaluate them side by side (the number printers made a case ~2x dearer)
     from concurrent.futures import ThreadPoolExecutor
     with ThreadPoolExecutor(max_workers=8) as ex:
         results = list(ex.map(lambda k: eval_cases(ck, "C15_enc_%d" % (k // shard), ok_cases[k:k + shard]), range(0, len(ok_cases), shard)))
-    for m, v, r, fd, out in results:
+    for m, v, r, fd, nl, out in results:
         if m is None:
             ck.obligation("encoder cases evaluated inside Coq", False, out[-1500:])
             return
@@ -230,12 +231,16 @@ def run_encoders(ck):
         viol += v
         unread += r
         fdis += fd
+        nloss += nl
     ck.obligation("correspondence: render(model tokens) = bytes sent by the implementation, on %d result sets" % len(ok_cases),
                   not mism and not panics, "mismatching case ids: %s" % mism[:10])
     ck.obligation("spec oracle: every body is one JSON document equal to the intended document of its rows", not viol,
                   "violating case ids: %s" % viol[:10])
     ck.obligation("float64(ts) and the quotients by 1e9 / 1000 of model/GoFloat.v (rne) equal Coq's IEEE 754 specification (SpecFloat.SFdiv) on every timestamp",
                   not fdis, "case ids: %s" % fdis[:10])
+    ck.obligation("without loss (evaluated in Coq per row): a microsecond-aligned TimestampNS in [0, 2^61) printed with %f reads back as exactly that many "
+                  "microseconds; a millisecond timestamp in [0, 2^53) printed with WriteFloat64 reads back as exactly that many milliseconds",
+                  not nloss, "case ids: %s" % nloss[:10])
     # independent readers agree on validity
     unread_s = set(unread)
     disagree = [c["id"] for c in ok_cases if c["valid"] == (c["id"] in unread_s)]
@@ -256,8 +261,8 @@ def run_encoders(ck):
                       "explanation": "spec_violation (model/JsonStream.v: parse_bytes + json_eq against the intended document) rejects the bytes the real encoder sent"
                       if worst["id"] in viol else "encoding/json parse differs from the rows: " + worst["gorows"],
                       "replay": "bin/check C15 --replay <this file>"})
-    elif mism or disagree or numloss:
-        worst = min((byid[i] for i in (mism or disagree or numloss)), key=case_size)
+    elif mism or disagree or numloss or nloss:
+        worst = min((byid[i] for i in (mism or disagree or numloss or nloss)), key=case_size)
         ck.violation({"property": PID, "kind": "model/implementation disagree; the body is still the intended document",
                       "case": strip_case(worst), "observed": describe(worst), "broken": "correspondence JsonStream.render vs encoder bytes"},
                      no_input=True)
